@@ -74,6 +74,15 @@ import GqlModel.Validate.Spec.Links
   context-determined, the final state is described exactly by `C09_variable_use_links_correct`;
   (3) `Spec.wellParented`, KnownRootType and KnownTypeNames are hypotheses, not yet consequences of
   `validate … = .ok []` (no C08 equivalence for these rules yet).
+  END TO END (bottom of this file): `C09_known_root_type_of_valid`, `C09_known_type_names_of_valid`
+  discharge the two named hypotheses from validity (the C08 equivalences exist now);
+  `C09_links_correct_parsed_loaded` is the capstone for a document PARSED from a source text against
+  a schema that `load` returned: operation kinds, distinct fragment positions (parser), closedness and
+  the `String` type (loader) are discharged; what is left is validity, `Spec.wellParented`, the
+  prelude being part of the schema document and the recorded non-object-root finding.
+  `C09_wellParented_of_valid` then derives `Spec.wellParented` from validity, and
+  `C09_links_correct_sources` is the statement over schema and query SOURCE TEXTS with nothing left but
+  the prelude and the non-object-root finding.
 -/
 open Gql Gql.Validate Gql.Validate.Rules
 
@@ -595,3 +604,116 @@ end NonVacuity
 #print axioms C09_untyped_values_only_in_custom_scalars
 #print axioms C09_default_rule_reports_nothing
 #print axioms C09_link_rules_of_valid
+
+
+/- ======================= END TO END: parsed documents, loaded schemas ======================= -/
+
+/-- validity gives the hypothesis `hKnownRootType` of `C09_links_correct` (C08_KnownRootType) -/
+theorem C09_known_root_type_of_valid (s : Schema) (d : QueryDoc) (hvalid : validate defaultRules s d = .ok []) :
+    Spec.knownRootType s d = true :=
+  (C08_KnownRootType s d).1
+    (C09_default_rule_reports_nothing s d hvalid _ (List.mem_filterMap.2 ⟨"KnownRootType", by decide, rfl⟩))
+
+/-- validity gives the hypothesis `hKnownTypeNames` of `C09_links_correct` (C08_KnownTypeNames) -/
+theorem C09_known_type_names_of_valid (s : Schema) (d : QueryDoc) (hvalid : validate defaultRules s d = .ok []) :
+    Spec.variableTypesExist s d = true ∧ Spec.fragmentSpreadTypeExistence s d = true := by
+  have := (C08_KnownTypeNames s d).1
+    (C09_default_rule_reports_nothing s d hvalid _ (List.mem_filterMap.2 ⟨"KnownTypeNames", by decide, rfl⟩))
+  exact ⟨this.2, this.1⟩
+
+/-- `C09_links_correct` without the two rule-named hypotheses -/
+theorem C09_links_correct_of_valid (s : Schema) (d : QueryDoc) (evs : List Event) (hw : walkDoc s.view d = some evs)
+    (hvalid : validate defaultRules s d = .ok []) (hs : Gql.Spec.Closed s)
+    (hString : (s.type? (str "String")).isSome) (hwp : Spec.wellParented s d = true)
+    (hk : ∀ op ∈ d.ops, op.op ∈ parserOpKinds) (hpos : FragPosDistinct d) :
+    Spec.expectedLinks s d = (docDemands s d).map (Demand.render s d) ∧
+    (∀ dm ∈ docDemands s d, dm.Met s d evs) ∧
+    (∀ dm ∈ docDemands s d, ∀ cands o raw ch p, dm = .value cands o → o.v = .mk .variable raw ch p →
+      cands raw = [] ∨
+      ∃ e ∈ evs, (∃ exp dfn, e.p = .value o.v exp dfn ∧ (o.typed = true → exp = o.exp ∧ dfn = o.dfn)) ∧
+        varText (e.links.varDef p.start) ∈ cands raw) ∧
+    (∀ dm ∈ docDemands s d, dm.Present s d) :=
+  C09_links_correct s d evs hw hvalid hs hString hwp hk hpos (C09_known_root_type_of_valid s d hvalid)
+    (C09_known_type_names_of_valid s d hvalid)
+
+/-- **C09 END TO END**: the schema document `sd` loads to `s`, the source text `inp` parses (any token
+    limit) to `d`, `d` validates against `s`.  Then every demanded link is met, every variable use
+    shows an admissible candidate and every demanded link is present.  Discharged from the models:
+    operation kinds and distinct fragment positions (parser), `Closed s` and the `String` type
+    (loader), KnownRootType / KnownTypeNames (validity).  Left: `Spec.wellParented s d` (every document
+    that validates is such, not yet derived), the prelude being part of `sd`, and the recorded
+    non-object-root finding (`rootTypesAreObjects`; only "the query root is not an input object" is
+    used). -/
+theorem C09_links_correct_parsed_loaded {sd : SchemaDoc} {s : Schema} (hl : Gql.Load.load sd = .ok s)
+    (hprel : PreludeDeclared sd) (hroots : Gql.Spec.rootTypesAreObjects s = true)
+    {L : Nat} {inp : Bytes} {d : QueryDoc} (hp : Parser.parseQuery L inp = .ok d)
+    (evs : List Event) (hw : walkDoc s.view d = some evs)
+    (hvalid : validate defaultRules s d = .ok []) (hwp : Spec.wellParented s d = true) :
+    Spec.expectedLinks s d = (docDemands s d).map (Demand.render s d) ∧
+    (∀ dm ∈ docDemands s d, dm.Met s d evs) ∧
+    (∀ dm ∈ docDemands s d, ∀ cands o raw ch p, dm = .value cands o → o.v = .mk .variable raw ch p →
+      cands raw = [] ∨
+      ∃ e ∈ evs, (∃ exp dfn, e.p = .value o.v exp dfn ∧ (o.typed = true → exp = o.exp ∧ dfn = o.dfn)) ∧
+        varText (e.links.varDef p.start) ∈ cands raw) ∧
+    (∀ dm ∈ docDemands s d, dm.Present s d) :=
+  C09_links_correct_of_valid s d evs hw hvalid
+    (Gql.EndToEnd.loaded_closed hl (Gql.EndToEnd.preludeDeclared_introspection hprel)
+      (Gql.EndToEnd.queryRootNotKind_of_rootsObjects hl hroots (by decide)))
+    (Gql.EndToEnd.loaded_hasString_of_prelude hl hprel) hwp (Gql.EndToEnd.parsed_kinds hp)
+    (Gql.EndToEnd.parsed_fragPosDistinct hp)
+
+/-- the same in the terms of `linkscheck` (dump lines) for a parsed document -/
+theorem C09_expected_links_met_parsed {L : Nat} {inp : Bytes} {d : QueryDoc} (hp : Parser.parseQuery L inp = .ok d)
+    (s : Schema) (evs : List Event) (hw : walkDoc s.view d = some evs) (hwp : Spec.wellParented s d = true) :
+    ∀ x ∈ Spec.expectedLinks s d, x.kind ≠ "I" →
+      (∃ e ∈ evs, ∃ fs, e.linkFields = some (x.start, x.kind, fs) ∧
+        e.linkLine = some (x.start, fmtLine x.kind fs) ∧ ∀ kv ∈ x.fields, kv ∈ fs) ∧
+      (∀ cs, x.varCands = some cs → cs ≠ [] →
+        ∃ e ∈ evs, ∃ fs, e.linkFields = some (x.start, x.kind, fs) ∧ (∀ kv ∈ x.fields, kv ∈ fs) ∧
+          ∃ got, ("var", got) ∈ fs ∧ got ∈ cs) :=
+  C09_expected_links_met s d evs hw hwp (Gql.EndToEnd.parsed_kinds hp) (Gql.EndToEnd.parsed_fragPosDistinct hp)
+
+
+/-- **every document that validates is well parented** (on a schema with the loader's invariants): the
+    hypothesis `hwp` of the C09 theorems follows from validity — KnownRootType, KnownTypeNames,
+    FragmentsOnCompositeTypes, FieldsOnCorrectType and ScalarLeafs report nothing
+    (`C08_wellParented_of_rules`, proof in `GqlProofs/EndToEnd/WellParented.lean`) -/
+theorem C09_wellParented_of_valid {s : Schema} (W : Gql.EndToEnd.WPSchema s) (hE : s.type? [] = none) (d : QueryDoc)
+    (hvalid : validate defaultRules s d = .ok []) : Spec.wellParented s d = true :=
+  C08_wellParented_of_rules W hE d
+    (C09_default_rule_reports_nothing s d hvalid _ (List.mem_filterMap.2 ⟨"KnownRootType", by decide, rfl⟩))
+    (C09_default_rule_reports_nothing s d hvalid _ (List.mem_filterMap.2 ⟨"KnownTypeNames", by decide, rfl⟩))
+    (C09_default_rule_reports_nothing s d hvalid _ (List.mem_filterMap.2 ⟨"FragmentsOnCompositeTypes", by decide, rfl⟩))
+    (C09_default_rule_reports_nothing s d hvalid _ (List.mem_filterMap.2 ⟨"FieldsOnCorrectType", by decide, rfl⟩))
+    (C09_default_rule_reports_nothing s d hvalid _ (List.mem_filterMap.2 ⟨"ScalarLeafs", by decide, rfl⟩))
+
+/-- **C09 END TO END over source texts, `Spec.wellParented` discharged.**  The schema sources are
+    well-formed UTF-8, `ParseSchemas` merges them into `sd`, `sd` loads to `s`; the query source `inp`
+    parses (any token limit) to `d`; `d` validates against `s`.  Then every demanded link is met, every
+    variable use shows an admissible candidate, every demanded link is present.  Hypotheses left: the
+    prelude is among the sources (`PreludeDeclared sd`) and the recorded non-object-root finding
+    (`rootTypesAreObjects s`). -/
+theorem C09_links_correct_sources {Ls : Nat} {srcs : List (Bool × Bytes)} {sd : SchemaDoc} {s : Schema}
+    (hsrc : ∀ src ∈ srcs, Lexer.Utf8.valid src.2) (hps : Parser.parseSchemas Ls srcs = .ok sd)
+    (hl : Gql.Load.load sd = .ok s) (hprel : PreludeDeclared sd) (hroots : Gql.Spec.rootTypesAreObjects s = true)
+    {L : Nat} {inp : Bytes} {d : QueryDoc} (hp : Parser.parseQuery L inp = .ok d)
+    (evs : List Event) (hw : walkDoc s.view d = some evs) (hvalid : validate defaultRules s d = .ok []) :
+    Spec.expectedLinks s d = (docDemands s d).map (Demand.render s d) ∧
+    (∀ dm ∈ docDemands s d, dm.Met s d evs) ∧
+    (∀ dm ∈ docDemands s d, ∀ cands o raw ch p, dm = .value cands o → o.v = .mk .variable raw ch p →
+      cands raw = [] ∨
+      ∃ e ∈ evs, (∃ exp dfn, e.p = .value o.v exp dfn ∧ (o.typed = true → exp = o.exp ∧ dfn = o.dfn)) ∧
+        varText (e.links.varDef p.start) ∈ cands raw) ∧
+    (∀ dm ∈ docDemands s d, dm.Present s d) :=
+  have T := Gql.EndToEnd.parseSchemas_treeHyps hsrc hps
+  C09_links_correct_parsed_loaded hl hprel hroots hp evs hw hvalid
+    (C09_wellParented_of_valid (Gql.EndToEnd.loaded_wpSchema hl hprel T.unions hroots)
+      (Gql.EndToEnd.loaded_noEmptyTypeName hl T.names) d hvalid)
+
+#print axioms C09_wellParented_of_valid
+#print axioms C09_links_correct_sources
+#print axioms C09_known_root_type_of_valid
+#print axioms C09_known_type_names_of_valid
+#print axioms C09_links_correct_of_valid
+#print axioms C09_links_correct_parsed_loaded
+#print axioms C09_expected_links_met_parsed
